@@ -782,3 +782,83 @@ def reachability_tables(ctx, fi, rule):
             a.targets[0].attr, r, 'reachable from' if want == 1 else 'that reach', r, U(a.value.value)[:60],
             'reachable from it' if got == 1 else 'that reach it'), construct='reachability table self.%s' % a.targets[0].attr)
     return n_ob
+
+
+def reduce_without_start(ctx, fi, rule):
+    """`reduce(f, X)` without a start value raises TypeError when X is empty (the builtin `sum` it usually replaces returns 0).  X is followed to
+    the collection it ranges over: a FILTERED selection (`[cl for cl in self.cliques if v in cl]`: the factors of an attribute - none for an
+    attribute no measurement mentions) can be empty and needs a guard (`if len(S) == 0: continue`, `if not S: ..`, an enclosing `if S:`); the
+    members of a clique / region (the loop variable of a walk over `self.cliques` / `self.regions`) are never empty.  Returns the number of
+    such calls."""
+    node = fi.node
+    for n_ in ast.walk(node):
+        for ch_ in ast.iter_child_nodes(n_):
+            ch_._gparent = n_
+    n = 0
+    for c in [x for x in ast.walk(node) if isinstance(x, ast.Call) and U(x.func) in ('reduce', 'functools.reduce') and len(x.args) == 2 and not x.keywords]:
+        n += 1
+        X = c.args[1]
+
+        def definition(name, before):
+            ds = [a for a in ast.walk(node) if isinstance(a, ast.Assign) and len(a.targets) == 1 and isinstance(a.targets[0], ast.Name)
+                  and a.targets[0].id == name]
+            return ds[0].value if len(ds) == 1 else None
+        if isinstance(X, ast.Name):
+            X = definition(X.id, c) or X
+        while isinstance(X, ast.Call) and U(X.func) in ('list', 'tuple', 'iter') and len(X.args) == 1:
+            X = X.args[0]
+        S = None
+        filtered = False
+        if isinstance(X, (ast.GeneratorExp, ast.ListComp)) and len(X.generators) == 1:
+            S = X.generators[0].iter
+            filtered = bool(X.generators[0].ifs)
+        elif isinstance(X, ast.Call) and isinstance(X.func, ast.Attribute) and X.func.attr == 'values' and not X.args:
+            S = X.func.value
+        elif isinstance(X, ast.Name):
+            S = X
+        if S is None:
+            raise AnalysisError('%s: `%s` folds `%s` without a start value; whether that can be empty is not decided' % (fi.qualname, U(c)[:60], U(c.args[1])[:40]))
+        sname = U(S)
+        kind = None            # 'nonempty' | 'maybe-empty'
+        if filtered:
+            kind = 'maybe-empty'
+        elif isinstance(S, ast.Name):
+            d = definition(S.id, c)
+            if d is not None and isinstance(d, (ast.ListComp, ast.GeneratorExp, ast.SetComp)) and any(g.ifs for g in d.generators):
+                kind = 'maybe-empty'
+            elif d is not None and isinstance(d, ast.Call) and U(d.func) == 'filter':
+                kind = 'maybe-empty'
+            else:
+                # a loop variable walking the cliques / regions: a clique has at least one attribute
+                for lp in [x for x in ast.walk(node) if isinstance(x, ast.For) and isinstance(x.target, ast.Name) and x.target.id == S.id]:
+                    if U(lp.iter).replace(' ', '') in ('self.cliques', 'self.regions', 'cliques', 'self.model.cliques') and any(y is c for y in ast.walk(lp)):
+                        kind = 'nonempty'
+        if kind is None:
+            raise AnalysisError('%s: `%s` folds over `%s` without a start value; whether that can be empty is not decided' % (fi.qualname, U(c)[:60], sname[:40]))
+        guarded = False
+        if kind == 'maybe-empty':
+            empties = {'len(%s)==0' % sname, 'not%s' % sname, 'len(%s)<1' % sname, '%s==[]' % sname, 'notlen(%s)' % sname}
+            nonempties = {sname, 'len(%s)>0' % sname, 'len(%s)!=0' % sname, 'len(%s)>=1' % sname, 'len(%s)' % sname}
+            cur = c
+            while cur is not node and cur is not None:
+                par = getattr(cur, '_gparent', None)
+                if isinstance(par, ast.If):
+                    t = U(par.test).replace(' ', '')
+                    if (cur in par.body and t in nonempties) or (cur in par.orelse and t in empties):
+                        guarded = True
+                for fld in ('body', 'orelse'):
+                    blk = getattr(par, fld, None) if par is not None else None
+                    if isinstance(blk, list) and cur in blk:
+                        for st in blk[:blk.index(cur)]:
+                            if isinstance(st, ast.If) and U(st.test).replace(' ', '') in empties and st.body \
+                                    and isinstance(st.body[-1], (ast.Continue, ast.Return, ast.Raise, ast.Break)):
+                                guarded = True
+                cur = par
+        ok = kind == 'nonempty' or guarded
+        ctx.ob(rule, fi, c, ok,
+               '`%s` has no start value: %s' % (U(c)[:70], 'it folds the members of a clique, of which there is at least one' if kind == 'nonempty' else
+                                                ('`%s` is a filtered selection, and the fold is only reached when it is non-empty' % sname if guarded else
+                                                 '`%s` is a filtered selection that is EMPTY for an attribute no measurement mentions (the domain may be larger than the '
+                                                 'union of the measured cliques): reduce() of an empty iterable raises TypeError where sum() gave 0' % sname)),
+               construct='fold without a start value: `%s`' % U(c)[:50])
+    return n
